@@ -10,7 +10,11 @@
    every scenario of every family (runtime.Stack through the verif hook) and the
    translator-generated spawn table (Gen/Spawns) lists every `go` statement with the
    exit condition the leak probe relies on. *)
-From MPB Require Import Base BaseProofs BarState BarStateProofs Container ContainerProofs ContainerLife.
+From MPB Require Import Base BaseProofs BarState BarStateProofs Container ContainerProofs ContainerLife GenChecks.
+From MPB.gen Require Import GenApi.
+From Coq Require Import String.
+Open Scope string_scope.
+Open Scope Z_scope.
 
 (* the container goroutine returned, the heap manager was ended and every actor has exited:
    from then on only answers to client calls are possible, for ever *)
@@ -43,6 +47,21 @@ Theorem C16_error_path_quiet : forall s s',
   step s CT_RENDERERR = Some s' -> PendIdle s -> Quiet s'.
 Proof. intros s s' H P. exact (proj1 (rendererr_quiet _ _ H P)). Qed.
 Print Assumptions C16_error_path_quiet.
+
+(* from the source, regenerated on every run: the `go` statements of the library are exactly these thirteen,
+   each with the reason it ends recorded next to it in GenChecks.expected_spawns; the service loops among
+   them all watch a done channel *)
+Theorem C16_spawn_table : spawns_eqb spawns expected_spawns = true.
+Proof. exact spawn_table_as_expected. Qed.
+Print Assumptions C16_spawn_table.
+
+Theorem C16_service_loops_watch_done :
+  forallb (fun rm => match find (fun g => String.eqb (g_recv g) (fst rm) && String.eqb (g_method g) (snd rm)) selects with
+                     | Some g => has_done g | None => false end)
+    [("Bar", "serve"); ("Bar", "tryEarlyRefresh"); ("Progress", "serve"); ("pState", "autoRefreshListener");
+     ("pState", "manualRefreshListener")]%string = true.
+Proof. exact service_loops_watch_done. Qed.
+Print Assumptions C16_service_loops_watch_done.
 
 (* non-vacuity: a cancelled run reaches a dead state *)
 Example C16_nonvacuous :
